@@ -204,6 +204,7 @@ def run(ctx):
         for o in obs:
             if o[3] != DT.index(c["dtype"]):
                 failures.append(("reading a single element fails or returns something else" if o[3] == 97 else
+                                 "two objects of the one array report different shapes or cells" if o[3] == 96 else
                                  "element type / len / size / read_direct inconsistent", inp, {"code": o[3]}))
                 break
         arr = "(mkArr %s %s %s)" % (zl(c["shape"]), zl(c["cells"]), cN(DT.index(c["dtype"])))
@@ -245,7 +246,8 @@ def run(ctx):
                 "NaN / inf / -0.0 / denormals / non-ASCII and long text; ops: whole write (write_direct, [:]=), region assignment "
                 "with the index expressions of C06 (scalar and array values), append along every axis (incl. mismatching shapes), "
                 "resize, reopen read-only and read-write; after every op shape, ALL cells (bit patterns), dtype, len, size and "
-                "read_direct are compared with the model.",
+                "read_direct are compared with the model. Operations alternate between two Python objects of the one "
+                "array and every observation is made through both.",
         "histories": len(cases), "disagreements": len(disagreements), "spec_failures": len(failures),
         "dtype_histogram": {d: sum(1 for c in cases if c["dtype"] == d) for d in DT},
         "samples": [{"dtype": cases[0]["dtype"], "shape": cases[0]["shape"], "ops": [o[0] for o in cases[0]["ops"]]}],
